@@ -79,6 +79,15 @@ void profile_cfg_more(const std::string &prof, uint64_t seed, RunCfg &c, Rng &r)
     for (auto &s : c.servers) s.cookie_mode = r.chance(0.3) ? (int)r.below(CK_NMODES) : 0;
     c.qcache_max_ttl = 0;
     c.knobs["nactive"] = 1 + (int64_t)r.below(c.servers.size());
+    if (r.chance(0.15)) {
+      // servers that interleave BADCOOKIE (with a valid cookie) and counted failures: the bad-cookie resends are free of
+      // charge, but only three per query
+      c.beh_w = {22, 18, 4, 0, 0, 0, 0, 18, 0, 0, 0, 38, 0, 0, 0};
+      for (auto &sv : c.servers) sv.cookie_mode = CK_GOOD;
+      c.flags = (c.flags < 0 ? 0 : c.flags) | ARES_FLAG_EDNS;
+      c.flags &= ~ARES_FLAG_USEVC;
+      if (c.tries >= 0 && c.tries < 3) c.tries = 3 + (int)r.below(3);
+    }
     if (r.chance(0.2)) {   // dead servers: every attempt of the budget is consumed
       c.beh_w = {0, 10, 5, 0, 0, 0, 0, 80, 0, 0, 5, 0, 0, 0, 0};
       if (r.chance(0.5)) c.knobs["nactive"] = 1;
@@ -333,6 +342,21 @@ void profile_cfg_more(const std::string &prof, uint64_t seed, RunCfg &c, Rng &r)
     if (r.chance(0.5)) { std::string ha; for (int n = 0; n < 400; n++) ha += "al-t" + std::to_string(n) + " al-t" + std::to_string(n) + ".aliased.test\n"; c.hostaliases = ha; }
     c.sock_create_cb = 0; c.sock_config_cb = 0; c.pending_write_cb = 0;
     c.faults = 0;   // per-candidate outcomes are the fault dimension of this profile
+    // where the settings come from: channel options, or the system configuration (resolv.conf "options ndots:" / "search",
+    // RES_OPTIONS / LOCALDOMAIN in the environment); the reference always knows what was written
+    if (c.ndots >= 0 && r.chance(0.4)) {
+      c.knobs["conf_ndots"] = c.ndots;
+      if (r.chance(0.3)) c.env["RES_OPTIONS"] = "ndots:" + std::to_string(c.ndots); else c.resolv_conf += "options ndots:" + std::to_string(c.ndots) + "\n";
+      c.ndots = -1;
+    }
+    if (!c.domains.empty() && r.chance(0.35)) {
+      std::string line; for (auto &d : c.domains) line += (line.empty() ? "" : " ") + d;
+      c.knobs["conf_search"] = 1;
+      // (the library deliberately keeps only the first domain of LOCALDOMAIN, resolv.conf(5) allows a list: the environment
+      //  variable is only used for single-domain lists here; see DESIGN.md 12.6)
+      if (c.domains.size() == 1 && r.chance(0.5)) c.env["LOCALDOMAIN"] = line; else c.resolv_conf += "search " + line + "\n";
+      c.set_domains = 0;   // c.domains stays: it is what the reference expects
+    }
     c.min_delay = 200; c.max_delay = 3000;
   } else if (prof == "C05") {
     c.allow_cancel_in_cb = 0;
@@ -655,7 +679,8 @@ static void c03_rich_request(Run &run, const Step &s) {
     std::string owner = (r.chance(0.5) ? "h" + std::to_string(r.below(6)) + "." : std::string("")) + zone;
     // (large messages: more fresh names and back-references, so that names first written beyond offset 16383 get referred to)
     double p_new = nrr > 400 ? 0.45 : 0.3, p_again = nrr > 400 ? 0.6 : 0.3;
-    if (r.chance(p_new)) owner = "u" + std::to_string(i) + "." + zone;          // a name that first appears here ...
+    if (r.chance(0.12)) owner = std::to_string(r.below(30)) + "." + (r.chance(0.5) ? "2.0.192.in-addr.arpa" : zone);   // names that differ from an earlier one by one leading character (1 / 11 / 21)
+    else if (r.chance(p_new)) owner = "u" + std::to_string(i) + "." + zone;          // a name that first appears here ...
     else if (i > 0 && r.chance(p_again) && !prev_owner.empty()) owner = prev_owner;   // ... and is referred to again by the next record
     prev_owner = owner;
     dnsref::RR e; e.name = dnsref::name_from_text(owner); e.klass = 1; e.ttl = (uint32_t)r.below(100000);
@@ -1272,7 +1297,8 @@ static void c12_done(Run &run, Req &r) {
   // ---- reference candidate list (resolv.conf(5)) ----
   std::vector<std::string> dom = run.cfg.domains;
   if (dom.empty()) dom.push_back("sim.test");           // default search list: the domain part of the host name
-  size_t ndots = (size_t)run.eff_ndots;
+  // what was configured (option, or system configuration when the option is left out), not what the library says it uses
+  size_t ndots = run.cfg.ndots >= 0 ? (size_t)run.cfg.ndots : (run.cfg.knob("conf_ndots", -1) >= 0 ? (size_t)run.cfg.knob("conf_ndots") : (size_t)1);
   std::vector<std::string> cands;
   const std::string &name = r.name;
   bool alias = false;
@@ -1342,10 +1368,12 @@ static void c05_arrival(Run &run, Resp &rs, VFd &sock) {
   const Tx &T = W.txs[(size_t)rs.tx];
   if (T.msg.qd.empty()) return;
   // latest transmission of the same wire query (same question, same id)
+  // (by send attempt, not by wire order: a datagram refused with EAGAIN leaves the library's buffer later, when the query
+  //  may already have been re-sent elsewhere)
   const Tx *last = nullptr;
   for (size_t i = W.txs.size(); i-- > 0;) {
     const Tx &x = W.txs[i];
-    if (x.decode_err.empty() && !x.msg.qd.empty() && x.msg.id == T.msg.id && x.qname_lc == T.qname_lc && x.msg.qd[0].type == T.msg.qd[0].type) { last = &x; break; }
+    if (x.decode_err.empty() && !x.msg.qd.empty() && x.msg.id == T.msg.id && x.qname_lc == T.qname_lc && x.msg.qd[0].type == T.msg.qd[0].type) { if (!last || x.lseq > last->lseq) last = &x; }
   }
   rs.acceptable = 1;
   rs.defect &= ~DEF_STALE;
@@ -1589,7 +1617,9 @@ struct C20Snap {
 static C20Snap g_c20_ref;
 
 static std::string c20_req_summary(const Req &r) {
-  std::string s = std::to_string(r.cb_count) + "|" + ares_status_name(r.status);
+  // (the number of timeouts the callback reports is part of the outcome: in this profile every server answers, latencies are
+  //  far below the 5 s timeout and the clock never stalls, so a timeout can only come from bytes the library left unsent or unread)
+  std::string s = std::to_string(r.cb_count) + "|" + ares_status_name(r.status) + "|to" + std::to_string(r.timeouts);
   if (r.got.has && r.got.decode_err.empty() && r.kind <= K_SEARCH) {
     s += "|rc" + std::to_string(r.got.msg.rcode()) + "|an" + std::to_string(r.got.msg.an.size()) + "|ns" + std::to_string(r.got.msg.ns.size()) + "|tc" + std::to_string((r.got.msg.flags & dnsref::F_TC) ? 1 : 0);
     std::string types; for (auto &rr : r.got.msg.an) types += std::to_string(rr.type) + ",";
